@@ -89,8 +89,14 @@ def floors(tier):
 
 
 def finalize(tier, merged):
+    planned = 0
+    for sc, L in client_scenarios(tier) + server_scenarios(tier):
+        planned += n_sequences(len(CLIENT_ALPHABET if sc["side"] == "client" else SERVER_ALPHABET), L)
+    done = int(merged.get("w2_client_sequences", 0) + merged.get("w2_server_sequences", 0))
     return {
-        "exhaustive": bool(merged.get("w2_enumerations_complete", 0) > 0 and merged.get("w2_enumerations_truncated", 0) == 0),
+        # every planned sequence of every scenario was executed (nothing cut off by the budget / a dead child)
+        "exhaustive": bool(done == planned and merged.get("w1_cells", 0) >= len(w1_instances()) * 256),
+        "sequences_planned": planned,
         "states": 13,
         "sequences": int(merged.get("w2_client_sequences", 0) + merged.get("w2_server_sequences", 0)),
     }
